@@ -488,7 +488,15 @@ class Interp:
             return np.stack([np.asarray(r, dtype=object) for r in rows])
         t, pos = self.sym_positions(idx)
         if not pos:
-            return np.asarray(a)[idx] if isinstance(a, np.ndarray) else a[idx]
+            try:
+                return np.asarray(a)[idx] if isinstance(a, np.ndarray) else a[idx]
+            except IndexError:
+                # a concrete index outside the array under a guard that is not known to hold (predicated execution
+                # reaches statements of branches the path may not take): an event under that guard, not a crash
+                if self.guard() is True:
+                    raise
+                self._event(self.guard(), 'IndexOutOfBounds', 0)
+                return 0
         cands = self.candidates(a, t, pos)
         res = None
         for combo in itertools.product(*cands):
@@ -514,7 +522,11 @@ class Interp:
             if g is True:
                 base[idx] = v
             else:
-                old = base[idx]
+                try:
+                    old = base[idx]
+                except IndexError:
+                    self._event(g, 'IndexOutOfBounds', 0)
+                    return
                 if isinstance(old, np.ndarray):
                     base[idx] = merge(g, v, old)
                 else:
